@@ -98,6 +98,8 @@ def run(ctx):
                         'layout independence of the resulting structure', 'that valid requests are not refused']
     allf = {(c, f): t for c, fs in F.items() for f, t in fs}
     vref = virtual_reference(ctx)
+    from . import c03_view
+    c03_view.check(ctx)
 
     # ---- R3.3a exhaustiveness of single-element tables --------------------------------------------------------------
     ctx.rule('R3.3a', 'every (class, field) of the grammar is a key of _PUT_ONE_HANDLERS and _GET_ONE_HANDLERS or in the '
